@@ -497,10 +497,14 @@ class Buildable(Generic[T], metaclass=abc.ABCMeta):
     )
     var_positional_start = self.__signature_info__.var_positional_start
     index_range = slice_key.indices(len(all_positional_args))
-    if var_positional_start is None or index_range[0] < var_positional_start:
+    indices = range(*index_range)
+    if (
+        var_positional_start is None
+        or index_range[0] < var_positional_start
+        or (len(indices) and min(indices) < var_positional_start)
+    ):
       # The slice key spans on non-variadic positional arguments, this set item
       # operation cannot modify the total length of full positiona args list.
-      indices = range(*index_range)
       if len(indices) != len(value):
         raise ValueError(
             'Cannot modify the total length of full positional arguments list'
